@@ -236,6 +236,24 @@ theorem C16_client_report_loadSub_witness :
     holdsP 1000 500 [false, false] (pObs (pFinal .loadSub 1000 500 [false, false] [0, 0, 1, 1, 1, 1, 0, 0])) = false := by
   decide
 
+/-! ## ResourceManager.DisposeAll -/
+
+/-- **Any mix of `Register` and `DisposeAll` calls (on a manager that already holds `pre` resources),
+every interleaving**, followed by the last `DisposeAll`: every resource ever registered has been
+disposed — the totals show exactly once each — and the map is empty. -/
+theorem C16_resource_manager (pre : Nat) (pcs : List MPc) (h : ∀ p ∈ pcs, p = MPc.reg ∨ p = MPc.d1)
+    (s : Schedule) : holdsM2 (rmObs (mFinal pre pcs s)) = true :=
+  holdsM2_final pre pcs h s
+
+/-! ## Known finding: two bridges of one mapping -/
+
+/-- KNOWN FINDING (`K:crossbridge-lost-update`): the read-modify-write of the mapping's statistics
+spans two storage calls and `reportMu` is per bridge; when two bridges of the same mapping overlap
+between `GetPortMapping` and `UpdatePortMappingStats`, one delta is lost (reported zero times).
+`C16_report` covers one bridge; sequential reports of several bridges are fine (example below). -/
+theorem C16_crossbridge_asFound_witness :
+    holdsX [100, 7] (xFinal [100, 7] [0, 1, 0, 1]).sh = false := by decide
+
 /-! ## Traffic report -/
 
 /-- **Totals reported exactly once, every schedule.** Any list of rounds (bytes counted, then any
@@ -248,7 +266,7 @@ theorem C16_report (rs : List Round) :
 
 /-- The code as found: two reporters compute the same delta, the second adds it again. -/
 theorem C16_report_asFound_witness :
-    holdsR 0 0 [⟨100, 7, 2, [0, 1, 0, 0]⟩] ((rRounds .asFound rInit [⟨100, 7, 2, [0, 1, 0, 0]⟩]).map rObs) = false := by
+    holdsR 0 0 [mkRound 100 7 2 [0, 1, 0, 0]] ((rRounds .asFound rInit [mkRound 100 7 2 [0, 1, 0, 0]]).map rObs) = false := by
   decide
 
 /-! ## Bridge.Close -/
@@ -259,7 +277,7 @@ ran once; and under every interleaving `s₂` of cleanup's report with the perio
 final report the bytes counted are in the mapping's totals exactly once. -/
 theorem C16_bridge (bs br n : Nat) (hn : 1 ≤ n) (s s₂ : Schedule) :
     holdsB bs br (bObs (bFinal n s)
-      (rRound .repaired rInit ⟨bs, br, 2 * (bFinal n s).sh.cleanups, s₂⟩)) = true := by
+      (rRound .repaired rInit (mkRound bs br (2 * (bFinal n s).sh.cleanups) s₂))) = true := by
   have hinv := bInv_final n s
   have hlen : (bFinal n s).ths.length = n := by unfold bFinal; rw [run_length]; simp [bInit]
   have h0 : (bFinal n s).ths[0]? = some ((bFinal n s).ths[0]'(by omega)) := List.getElem?_eq_getElem (by omega)
@@ -277,8 +295,10 @@ theorem C16_bridge (bs br n : Nat) (hn : 1 ≤ n) (s s₂ : Schedule) :
   rw [f6] at a4
   rw [f7] at a5
   simp only [b2n, Bool.not_true, Bool.false_eq_true, if_false, Nat.add_zero] at a1 a2 a3 a4 a5
-  obtain ⟨g, _, _, _, hl⟩ := r_round rInit ⟨bs, br, 2 * (bFinal n s).sh.cleanups, s₂⟩ rGlobal_init rfl
-  obtain ⟨l1, l2⟩ := hl (by simp only; omega)
+  obtain ⟨g, _, _, _, hl⟩ := r_round rInit (mkRound bs br (2 * (bFinal n s).sh.cleanups) s₂) rGlobal_init rfl
+  obtain ⟨l1, l2⟩ := hl (by
+    have h2 : 2 * (bFinal n s).sh.cleanups = 2 := by omega
+    simp [mkRound, h2, Round.clean, List.range_succ])
   have e1 := g.statS
   have e2 := g.statR
   rw [show rInit.sent = 0 from rfl, Nat.zero_add] at l1
@@ -299,8 +319,8 @@ theorem C16_flow (i : FlowIn) (s₂ : Schedule) (lateFlush : Bool) :
   have hcnt : (flowCopy i).counter = (flowCopy i).delivered.length := by
     simp only [flowCopy, C02.copy]
     rw [hc, hd]; simp
-  obtain ⟨g, _, _, _, hl⟩ := r_round rInit ⟨(flowCopy i).counter, 0, 2, s₂⟩ rGlobal_init rfl
-  obtain ⟨l1, l2⟩ := hl (Nat.le_of_ble_eq_true rfl)
+  obtain ⟨g, _, _, _, hl⟩ := r_round rInit (mkRound (flowCopy i).counter 0 2 s₂) rGlobal_init rfl
+  obtain ⟨l1, l2⟩ := hl (by simp [mkRound, Round.clean, List.range_succ])
   have hdef : ∀ j : FlowIn, fObs j s₂ = fObsOf (flowCopy j) (flowReportOf (flowCopy j).counter s₂) := fun _ => rfl
   simp only [show rInit.sent = 0 from rfl, show rInit.recv = 0 from rfl, Nat.zero_add] at l1 l2
   have e1 := g.statS
@@ -329,8 +349,8 @@ theorem C16_stream_asFound_witness :
 example : (tFinal .repaired ⟨0, true⟩ 1 [0, 3] [0, 1, 0, 1]).sh.k.onClosed.length = 1 := by decide
 example : (tFinal .asFound ⟨0, true⟩ 1 [0, 3] [0, 1, 0, 1]).sh.k.onClosed = [0, 3] := by decide
 example : (dObs (dFinal [true, false, true] 3 [2, 0, 1, 1, 2])).runs = [1, 1, 1] := by decide
-example : ((rRounds .repaired rInit [⟨100, 7, 2, [0, 1, 0, 0]⟩]).map rObs) = [⟨100, 7, 1, 100, 7⟩] := by decide
-example : ((rRounds .asFound rInit [⟨100, 7, 2, [0, 1, 0, 0]⟩]).map rObs) = [⟨200, 14, 2, 100, 7⟩] := by decide
+example : ((rRounds .repaired rInit [mkRound 100 7 2 [0, 1, 0, 0]]).map rObs) = [⟨100, 7, 1, 100, 7⟩] := by decide
+example : ((rRounds .asFound rInit [mkRound 100 7 2 [0, 1, 0, 0]]).map rObs) = [⟨200, 14, 2, 100, 7⟩] := by decide
 example : (sObs (sFinal .repaired [(false, 4)] 1 [0, 0, 0, 1, 1, 1])).op = 2 := by decide
 example : (sObs (sFinal .asFound [(false, 4)] 1 [0, 0, 0, 1, 1, 1])).op = 3 := by decide
 example : (fObs ⟨[{ data := [1, 2, 3], err := none }, { data := [4], err := none }], []⟩ [0, 1, 1]).statS = 4 := by decide
@@ -347,6 +367,10 @@ example : pObs (pFinal .swap 1000 500 [false, false] [0, 0, 1, 1, 1, 1, 0, 0]) =
 example : pObs (pFinal .loadSub 1000 500 [false, false] [0, 0, 1, 1, 1, 1, 0, 0]) = ⟨2000, 1000, -1000, -500, 2, 0⟩ := by decide
 example : pObs (pFinal .swap 7 0 [true, false] [0, 0, 0, 0, 1, 1, 1]) = ⟨7, 0, 0, 0, 2, 0⟩ := by decide
 example : pObs (pFinal .swap 7 0 [true, false] [0, 0, 0, 1, 1]) = ⟨0, 0, 7, 0, 1, 0⟩ := by decide
+example : holdsX [100, 7] (xFinal [100, 7] [0, 0, 1, 1]).sh = true := by decide
+example : rmObs (mFinal 2 [.d1, .reg, .d1, .reg] [0, 1, 2, 0, 3, 0, 2]) = ⟨4, 4, 0, 0⟩ := by decide +kernel
+example : ((rRounds .repaired rInit [⟨100, 7, 2, [0, 0, 0, 1], [0], []⟩, mkRound 1 1 1 []]).map rObs)
+    = [⟨100, 7, 1, 100, 7⟩, ⟨101, 8, 2, 101, 8⟩] := by decide
 example : (bFinal 3 [0, 1, 2, 2, 1, 0]).sh.sc = 2 ∧ (bFinal 3 [0, 1, 2, 2, 1, 0]).sh.cleanups = 1 := by decide
 
 end Tunnox.C16
